@@ -100,6 +100,50 @@ def cfp(o):
         return ("?",)
 
 
+_ATTRS = ("sf", "size", "v", "disp", "pos", "ref", "endian", "x", "l", "r", "a", "base", "seg", "tst")
+_MISSING = "<none>"
+
+
+def _get(o, a):
+    try:
+        return object.__getattribute__(o, a)      # slots and instance attributes alike; no amoco __getattr__ magic
+    except Exception:
+        return _MISSING
+
+
+_SCALAR = (int, str, bool, type(None))
+_GETTERS = {}
+
+
+def _getter(cls):
+    g = _GETTERS.get(cls)
+    if g is None:
+        import operator
+        names = []
+        for k in cls.__mro__:
+            for a in getattr(k, "__slots__", ()):
+                if a in _ATTRS and a not in names:
+                    names.append(a)
+        g = _GETTERS[cls] = (operator.attrgetter(*names) if len(names) > 1 else None, tuple(names))
+    return g
+
+
+def ofp(o):
+    """shallow state of a global expression object: the scalar attributes that define what it means and
+    the identity of its children (a hook that rewrites the displacement of a shared memory operand, or
+    re-points a shared slice, changes it)"""
+    g, names = _getter(type(o))
+    try:
+        vals = g(o)
+    except Exception:
+        vals = tuple(_get(o, a) for a in names)
+    return tuple([x if type(x) in _SCALAR else id(x) for x in vals])
+
+
+def oattrs(o):
+    return {a: _get(o, a) for a in _ATTRS if _get(o, a) is not _MISSING}
+
+
 class World(object):
     def __init__(self, isas):
         self.objs = {}       # isa -> [(name, obj)]
@@ -113,6 +157,7 @@ class World(object):
         ids = {n: set(id(o) for _, o in lst) for n, lst in self.objs.items()}
         self.group = {n: set(m for m in ids if ids[n] & ids[m]) for n in ids}
         self.base = self.snap()
+        self.base_attr = {n: [oattrs(o) for _, o in lst] for n, lst in self.objs.items()}
         self.base_int = {n: [(k, dict(v)) for k, v in self.ints[n]] for n in self.ints}
 
     def grp(self, only):
@@ -125,7 +170,7 @@ class World(object):
 
     def snap(self, only=None):
         only = self.grp(only)
-        d = {n: [(o.sf, o.size) for _, o in lst] for n, lst in self.objs.items() if only is None or n in only}
+        d = {n: [ofp(o) for _, o in lst] for n, lst in self.objs.items() if only is None or n in only}
         d["#containers"] = {n: [cfp(o) for _, o in lst] for n, lst in self.conts.items() if only is None or n in only}
         return d
 
@@ -137,7 +182,7 @@ class World(object):
                 continue
             b = before[n]
             for k, (name, o) in enumerate(lst):
-                if (o.sf, o.size) != b[k]:
+                if ofp(o) != b[k]:
                     out.append((n, k, name, bool(o.sf)))
         for n in self.ints:
             for (k, v), (_, bv) in zip(self.ints[n], self.base_int[n]):
@@ -154,11 +199,14 @@ class World(object):
         for n, lst in self.objs.items():
             if only is not None and n not in only:
                 continue
-            for (name, o), (sf, size) in zip(lst, self.base[n]):
-                if o.sf != sf:
-                    o.sf = sf
-                if o.size != size:
-                    o.size = size
+            for (name, o), fp, attrs in zip(lst, self.base[n], self.base_attr[n]):
+                if ofp(o) != fp:
+                    for a, x in attrs.items():
+                        try:
+                            if _get(o, a) is not x:
+                                object.__setattr__(o, a, x)
+                        except Exception:
+                            pass
         for n in self.ints:
             for (k, v), (_, bv) in zip(self.ints[n], self.base_int[n]):
                 if v != bv:
@@ -179,7 +227,7 @@ class World(object):
 def registers(I):
     out = []
     for name, o in global_objects(I)[0]:
-        if type(o) is reg and "." not in name and o.size > 0:
+        if type(o) is reg and o.size > 0:      # also registers first reached as the base of a slice (al.x = eax)
             out.append(o)
     # unique by ref
     seen, res = set(), []
@@ -295,6 +343,7 @@ def main(tier):
     import random as _random
     per_spec = 1 if quick else 4
     pools, states, table, rows = {}, {}, [], {}
+    writes = {}            # isa -> {instruction bytes -> registers its map writes}
     row_example = {}
     # ---- measure footprints ------------------------------------------------------------------------
     for name in sorted(isas):
@@ -305,6 +354,38 @@ def main(tier):
         states[name] = [concrete_state(I, 0), concrete_state(I, 1), concrete_state(I, 2)]
         W.restore({name})
         pool = []
+        wr = writes.setdefault(name, {})
+        # decode-only footprints on more samples per spec (a hook may touch a shared object only for some
+        # field values, or before it rejects the input and another spec takes over): one snapshot per batch
+        for s in specs:
+            batch = [isa.directed_bytes(s, e, fr) for _ in range(6 if quick else 16)]
+            before = W.snap({name})
+            got = []
+            for bs in batch:
+                try:
+                    isa.reset(I.dis)
+                    got.append((bs, I.dis(bs)))
+                except Exception:
+                    pass
+            if W.diff(before):
+                W.restore({name})
+                for bs, _ in got:
+                    before = W.snap({name})
+                    try:
+                        isa.reset(I.dis)
+                        i = I.dis(bs)
+                    except Exception:
+                        i = None
+                    d = W.diff(before)
+                    if d and i is not None:
+                        key = (name, "decode:%s" % i.mnemonic)
+                        row = rows.setdefault(key, {})
+                        row_example.setdefault(key, bs[:len(i.bytes)])
+                        for (n2, slot, sname, val) in d:
+                            row[(slot if n2 == name else 50000 + slot, sname if n2 == name else n2 + ":" + sname)] = val
+                        ck.count("footprint.decode-batch.dirty")
+                    W.restore({name})
+            ck.count("footprint.decode-batch")
         for s in [x for x in specs for _ in range(per_spec)]:
             bs = isa.directed_bytes(s, e, fr)
             before = W.snap({name})
@@ -333,6 +414,7 @@ def main(tier):
                 if assume_eval(I, m):
                     phases.append(("assume", W.diff(before)))
                 pool.append(bs[:len(i.bytes)])
+                wr[bs[:len(i.bytes)]] = frozenset(str(l) for l, _ in m if l._is_reg)
             except Exception:
                 pass                      # raising semantics: C17's business
             for ph, d in phases:
@@ -475,6 +557,20 @@ def main(tier):
 
     ntr = 150 if quick else 3000
     names = [n for n in sorted(isas) if pools[n]]
+    # registers nearly every instruction writes (pc, flags) do not steer anything
+    common = {}
+    for n in names:
+        cnt = {}
+        for b_, ws in writes.get(n, {}).items():
+            for x in ws:
+                cnt[x] = cnt.get(x, 0) + 1
+        common[n] = set(x for x, c in cnt.items() if c > 0.3 * max(len(pools[n]), 1))
+    by_reg = {}
+    for n in names:
+        d_ = by_reg.setdefault(n, {})
+        for b_, ws in writes.get(n, {}).items():
+            for x in ws - common[n]:
+                d_.setdefault(x, []).append(b_)
     observed = {}          # (isa, op) -> True, for dirty rows with an observable effect
     for t in range(ntr):
         name = r.choice(names)
@@ -483,6 +579,15 @@ def main(tier):
         for _ in range(r.choice([0, 1, 2, 4, 8])):
             hn = name if r.random() < 0.7 else r.choice(names)
             H.append((hn, r.choice(pools[hn]), r.choice(["decode", "exec", "eval", "assume"])))
+        if t % 2 == 1:
+            # steered: one instruction, then instructions that write a register it writes, executed on
+            # the same running state (what was read from that state before must keep its meaning)
+            b0 = r.choice(pools[name])
+            regs0 = sorted(writes[name].get(b0, frozenset()) - common[name])
+            if regs0:
+                bss = [b0]
+                cands = by_reg[name].get(r.choice(regs0), [b0])
+                H = [(name, r.choice(cands), "exec") for _ in range(r.choice([1, 2, 3]))]
         res = trial(name, bss, H)
         if res is None:
             continue
